@@ -1,7 +1,8 @@
 /-
   C17 — Gradients are linear in the seed; an omitted seed means all ones.
 -/
-import CorgiModel.Program
+import CorgiProofs.PathSum
+import CorgiProofs.Instances
 
 set_option linter.unusedSectionVars false
 
@@ -25,7 +26,50 @@ theorem C17_ones_exists (dims : List Nat) (hpos : ∀ d ∈ dims, 1 ≤ d) :
   have : dims.all (fun d => decide (1 ≤ d)) = true := by simpa using hpos
   simp [this, pure, Except.pure]
 
+/-- **Additivity in the seed.**  The change of every gradient coordinate produced with the seed
+    `s₁ + s₂` is the sum of the changes produced with `s₁` and with `s₂` (three passes from the same
+    clean state over the same graph). -/
+theorem C17_additive [AddLaws S] {G : Graph S} (sem : Sem G) (wf : G.WF) (lawful : G.Lawful)
+    (ℓ j fuel root : Nat) (hf : root < fuel) (dims : List Nat) (σ σ₁ σ₂ σ₃ : EState S)
+    (hclean : σ.Clean) (hlog : σ.log = []) (hg : ∀ g, σ.grad ℓ = some g → Shaped (sem.dimsOf ℓ) g)
+    (s₁ s₂ : Tensor S) (h₁ : Shaped (sem.dimsOf root) s₁) (h₂ : Shaped (sem.dimsOf root) s₂)
+    (ok₁ : backward G fuel root dims (sem.κ root) (some s₁) σ = .ok σ₁)
+    (ok₂ : backward G fuel root dims (sem.κ root) (some s₂) σ = .ok σ₂)
+    (ok₃ : backward G fuel root dims (sem.κ root) (some (tadd s₁ s₂)) σ = .ok σ₃) :
+    gradVal ℓ j σ₃ = gradVal ℓ j σ + (P sem ℓ j root s₁ + P sem ℓ j root s₂) ∧
+    gradVal ℓ j σ₁ = gradVal ℓ j σ + P sem ℓ j root s₁ ∧
+    gradVal ℓ j σ₂ = gradVal ℓ j σ + P sem ℓ j root s₂ := by
+  have e₁ := (backward_pathsum sem ℓ j wf lawful fuel root hf dims (some s₁) σ σ₁ hclean hlog hg s₁ rfl h₁ ok₁).1
+  have e₂ := (backward_pathsum sem ℓ j wf lawful fuel root hf dims (some s₂) σ σ₂ hclean hlog hg s₂ rfl h₂ ok₂).1
+  have e₃ := (backward_pathsum sem ℓ j wf lawful fuel root hf dims (some (tadd s₁ s₂)) σ σ₃ hclean hlog hg _ rfl
+    (h₁.tadd h₂) ok₃).1
+  rw [P_add sem ℓ j root s₁ s₂ h₁ h₂] at e₃
+  exact ⟨e₃, e₁, e₂⟩
+
+/-- **Homogeneity.**  If every operation's contribution commutes with scaling by `α` (true of every
+    built-in closure over a commutative ring: they are linear in the delta), the change produced with
+    the seed `α·s` is `α` times the change produced with `s`. -/
+theorem C17_homogeneous [AddLaws S] {G : Graph S} (sem : Sem G) (wf : G.WF) (lawful : G.Lawful)
+    (ℓ j fuel root : Nat) (hf : root < fuel) (dims : List Nat) (σ σ' : EState S)
+    (hclean : σ.Clean) (hlog : σ.log = []) (hg : ∀ g, σ.grad ℓ = some g → Shaped (sem.dimsOf ℓ) g)
+    (α : S) (hα0 : α * zero = zero) (hdist : ∀ a b : S, α * (a + b) = α * a + α * b)
+    (hΛ : ∀ n i s x, (G.kids n)[i]? = some s → Shaped (sem.dimsOf n) x → sem.Λ n i (tsmul α x) = tsmul α (sem.Λ n i x))
+    (s : Tensor S) (hs : Shaped (sem.dimsOf root) s)
+    (ok : backward G fuel root dims (sem.κ root) (some (tsmul α s)) σ = .ok σ') :
+    gradVal ℓ j σ' = gradVal ℓ j σ + α * P sem ℓ j root s := by
+  have e := (backward_pathsum sem ℓ j wf lawful fuel root hf dims (some (tsmul α s)) σ σ' hclean hlog hg _ rfl
+    (hs.tsmul α) ok).1
+  rw [e]
+  congr 1
+  exact Pf_smul sem ℓ j α hα0 hdist hΛ (root + 1) root s hs
+
+/-! non-vacuity: the hypotheses are satisfiable — a graph with 2^n paths, with its `Sem` -/
+example : chain2.WF ∧ chain2.Lawful := ⟨chain2_wf, chain2_lawful⟩
+example : Shaped (chain2Sem.dimsOf 3) (⟨[1], [5]⟩ : Tensor Int) := ⟨rfl, rfl⟩
+
 end Corgi
 
 #print axioms Corgi.C17_default
 #print axioms Corgi.C17_ones_exists
+#print axioms Corgi.C17_additive
+#print axioms Corgi.C17_homogeneous
